@@ -93,6 +93,25 @@ def construct_request(rng, ub, tr, P0=None):
             ub2.n_phi = tuple(float(x) for x in v)
         else:
             ub2.surf_nphi = tuple(float(x) for x in v)
+    if any(nm in tr for nm in ("bin_eq_bout", "betain", "betaout")) and "naz" not in tr and rng.random() < 0.15:
+        # surface-type modes never look at the azimuthal reference vector: put it exactly along the scattering vector (tau = 0), where
+        # every reference-type pseudo-angle is undefined — the request stays perfectly regular
+        q = kf - ki
+        if np.linalg.norm(q) > 1e-6:
+            ub2 = copy.deepcopy(ub2)
+            ub2.n_phi = tuple(float(x) for x in (Z.T @ q) * rng.choice([1.0, -1.0, 2.5]))
+    if "psi" in tr and rng.random() < 0.3:
+        # place the reference vector so that psi comes out a hair off 0 / 180 / +-90 (the band in which the +psi and -psi roots nearly coincide)
+        q = kf - ki
+        sp = np.cross(ki, kf)
+        if np.linalg.norm(q) > 1e-6 and np.linalg.norm(sp) > 1e-6:
+            qh, sh = q / np.linalg.norm(q), sp / np.linalg.norm(sp)
+            eh = np.cross(sh, qh)
+            psi_t = radians(rng.choice([0.0, 180.0, 0.0, 180.0, 90.0, -90.0]) + (10.0 ** rng.uniform(-6.5, -2.0)) * rng.choice((-1, 1)))
+            tau_t = radians(rng.uniform(20, 160))
+            nl = cos(tau_t) * qh - sin(tau_t) * (sin(psi_t) * sh + cos(psi_t) * eh)
+            ub2 = copy.deepcopy(ub2)
+            ub2.n_phi = tuple(float(x) for x in Z.T @ nl)
     n, s = vectors(ub2)
     pv = pseudo(n, s, P)
     vals = {}
@@ -168,8 +187,22 @@ def degenerate_requests(rng, n):
         ub = mk_ub(lattice=(a,), rotvec=(0, 0, 0), n_hkl=None, n_phi=(0, 0, 1), surf_nphi=(0, 0, 1), surf_nhkl=None)
         h, k = rng.uniform(0.1, 0.6), rng.uniform(0.1, 0.6)
         x = rng.choice([0.0, 20.0, rng.uniform(-60, 60), 0.0])
-        fam = rng.choice(["v-eta", "v-free", "h-mu", "h-free", "v-delta", "h-nu"])
-        if fam == "v-eta":      # chi=0, mu=nu=0 family, eta constrained
+        fam = rng.choice(["v-eta", "v-free", "h-mu", "h-free", "v-delta", "h-nu", "v-any", "h-any", "v-any", "h-any"])
+        if fam in ("v-any", "h-any"):
+            # a degenerate 4-circle position, requested through ANY implemented mode whose three quantities are read off it
+            # (incl. omega + bisect, where eta resp. mu is tied without being a named constraint)
+            tr = rng.choice(modes())
+            if fam == "v-any":
+                P0 = [0.0, rng.uniform(10, 120), 0.0, rng.uniform(-80, 80), rng.choice([0.0, 0.0, 180.0]), rng.uniform(-170, 170)]
+            else:
+                P0 = [rng.uniform(-80, 80), 0.0, rng.uniform(10, 120), 0.0, rng.choice([90.0, 90.0, -90.0]), rng.uniform(-170, 170)]
+            if rng.random() < 0.5:
+                ub = mk_ub(lattice=(a,), rotvec=(0, 0, rng.uniform(-1, 1)), n_hkl=None, n_phi=(0, 0, 1), surf_nphi=(0, 0, 1), surf_nhkl=None)
+            r = construct_request(rng, ub, tr, P0=P0)
+            if r is not None:
+                ub2, vals, hkl, P = r
+                out.append((ub2, vals, tuple(float(x) for x in hkl), 1.0, fam))
+        elif fam == "v-eta":      # chi=0, mu=nu=0 family, eta constrained
             out.append((ub, {"qaz": 90.0, "mu": 0.0, "eta": x}, (h, k, 0.0), 1.0, fam))
         elif fam == "v-free":   # eta free: the tidy-up is allowed to choose it
             out.append((ub, {"qaz": 90.0, "mu": 0.0, "a_eq_b": True}, (h, k, 0.0), 1.0, fam))
